@@ -440,9 +440,11 @@ def r3(ctx):
             got = "UNSUPPORTED-FORM: %s" % ex
         released = any(e[0] in ("on_sync_finished", "finish") and e[1][:2] == ["namespace", "peer"] for e in log)
         if must is None:
-            # a request we declined ourselves: it never took the slot; AlreadySyncing must not release the slot of the session that owns it
-            ok = got == "returns" and (not released or "AlreadySyncing" not in label)
-            spec = "a request declined by us never held the slot: releasing on AlreadySyncing would free the running session's slot"
+            # a request we declined ourselves - whatever the reason: already syncing, document not synced, internal error - never
+            # took the slot (accept_request sets it only on Allow). Its result may arrive late (the accept task ends after the
+            # stream-close handshake): releasing on it frees the slot of whichever session holds it by then (F27)
+            ok = got == "returns" and not released
+            spec = "a request declined by us never held the slot: its result must not release the slot (it would free the slot of the session that owns it by then)"
         else:
             ok = got == "returns" and released == must
             spec = "released exactly when the result names the (namespace, peer) whose slot accept_request took"
